@@ -14,7 +14,9 @@
     decoder is applied to the value, as Update.parse_attributes does.
 
     Prefix octets of VPN / labeled unicast routes are modelled as repaired by
-    build/proposed/c07-1-construct-prefix-v6.diff and c07-2-construct-prefix-v4-zero.diff. *)
+    build/proposed/c07-1-construct-prefix-v6.diff and c07-2-construct-prefix-v4-zero.diff; the label
+    parser is bounded to the route as by build/proposed/c11-label-stack-bound.diff; flowspec operand
+    widths and the 2-octet rule length as by build/proposed/c08-flowspec-framing.diff. *)
 From YV Require Import lib.Base gen.Consts model.YMp model.YPrefix6 model.YLabel model.YVpn model.YLu
   model.YFlow4
   proof.MpPrefix6Proofs proof.MpLabelProofs proof.MpVpnProofs proof.MpLuProofs proof.MpFlow4Proofs.
@@ -256,7 +258,7 @@ Definition C07_flowspec_roundtrip_statement : Prop := forall nh fs nlri,
             reachfs_parse v = Ok (option_map V4 nh, map expect_flow fs).
 
 (** proved part: the numeric-operator list of one component (comparisons =, <, >, <=, >= on values
-    of 1, 2 or 4 octets, any number of OR-ed items) encodes and decodes to itself and the decoder
+    below 2^32, written on 1, 2 or 4 octets, any number of OR-ed items) encodes and decodes to itself and the decoder
     reports the number of octets it consumed (+1, as parse_operators does).  Missing for the full
     statement: prefix components, the component loop (dict assembly), the rule length framing
     and the attribute framing - these are covered by the model/implementation correspondence and
@@ -273,16 +275,10 @@ Example C07_flowspec_nonvacuous :
   fs_construct_ops [(1, 80); (3, 8080); (5, 4000000000)] = Ok [1; 80; 19; 31; 144; 165; 238; 107; 40; 0].
 Proof.
   split; [|vm_compute; reflexivity].
-  constructor; [split; [reflexivity | left; reflexivity]|].
-  constructor; [split; [reflexivity | left; reflexivity]|].
-  constructor; [split; [reflexivity | right; split; [discriminate | reflexivity]]|]. constructor.
+  repeat (constructor; [split; reflexivity|]). constructor.
 Qed.
 
 (** defects *)
-Theorem C07_flowspec_refuted_three_octet_value : fs_construct_ops [(1, 65536)] = Exc.
-Proof. exact refuted_three_octet_value. Qed.
-Print Assumptions C07_flowspec_refuted_three_octet_value.
-
 Theorem C07_flowspec_refuted_prefix_length_zero : fs_construct_prefix (0, 0) = Exc.
 Proof. exact refuted_prefix_length_zero. Qed.
 Print Assumptions C07_flowspec_refuted_prefix_length_zero.
